@@ -279,7 +279,10 @@ class _Optimizers(_Algorithm):
         for key in ('weights', 'alpha'):
             if key in method_kws:
                 method_kws[key] = np.pad(
-                    method_kws[key],
+                    # ensure a 1d array since (N, 1) or (1, N) shaped arrays would be padded on both axes
+                    _check_optional_array(
+                        self._size, method_kws[key], check_finite=self._check_finite, name=key
+                    ),
                     [0 if side == 'right' else added_window, 0 if side == 'left' else added_window],
                     'constant', constant_values=1
                 )
